@@ -630,6 +630,44 @@ def cascadable(V):
             ("elementwise_cascadable is respected", B(ew_ok))]
 
 
+def apply_twice(V, first_cascaded):
+    """the scheduler applies schedules repeatedly (optimised, minimal, optimised again): the REAL Scheduler.apply_schedule on a real Tensor with two
+    symbolic rolling-buffer heights in sequence - after each application the tensor's storage holds exactly the rows of THAT schedule's rolling
+    buffer (a buffer left at an earlier, smaller height lets a row be overwritten before its last consumer stripe has read it)."""
+    import ethosu.vela.npu_performance  # noqa: F401
+    import ethosu.vela.scheduler as sch
+    import ethosu.vela.tensor as tensor
+    from ethosu.vela.tensor import Tensor, MemArea, TensorFormat
+    from ethosu.vela.data_type import DataType
+    from ethosu.vela.shape4d import Shape4D
+    from harness.c04 import arch_for
+
+    arch = arch_for("Ethos_U55_128")
+    H = 64
+    h1, h2 = V.int("first_buffer_rows", 1, H), V.int("second_buffer_rows", 1, H)
+    t = Tensor([1, H, 8, 20], DataType.int8, "mid")
+    t.force_linear_format = False  # check_format_restrictions allowed bricks (a rolling buffer requires them)
+    t.set_format(TensorFormat.NHWC, arch)
+    sop = _Obj(ifm=_Obj(connection=_Obj(parent_tens=t)), parent_ps=_Obj(block_config=None), name="consumer")
+    bc = _Obj(old_style_representation=lambda: [1, 1, 1, 16])
+
+    def schedule(rows, cascaded=True):
+        info = _Obj(cascade=1 if cascaded else 0, block_config=bc, buffered_weight_tensors=[], npu_weights_tensor=None)
+        casc = {1: _Obj(buffers={sop: Shape4D(1, rows, 8, 32)})} if cascaded else {}
+        return _Obj(cost_map={sop: info}, cascades=casc)
+
+    me = _Obj(sched_ops=[sop], arch=arch)
+    cl = []
+    with core.shims((sch, {"min": core.smin, "max": core.smax}), (tensor, {"min": core.smin, "max": core.smax})):
+        sch.Scheduler.apply_schedule(me, schedule(h1, first_cascaded))
+        if first_cascaded:
+            cl.append(("after the first schedule the buffer holds its rows", L(t.storage_shape[1]) == L(h1)))
+        sch.Scheduler.apply_schedule(me, schedule(h2))
+    cl += [("after the second schedule the buffer holds the second schedule's rows", L(t.storage_shape[1]) == L(h2)),
+           ("in bricks of 16 channels, full width", t.format == TensorFormat.NHCWB16 and int(t.storage_shape[2]) == 8 and int(t.storage_shape[3]) == 32)]
+    return cl
+
+
 def rolling_dims(V, **params):
     """rolling buffers are tall, wide and deep enough: harness/c02.py rolling_dims (the real rolling_buffer_shape on symbolic stripe shapes)"""
     from harness import c02
@@ -637,7 +675,7 @@ def rolling_dims(V, **params):
     return c02.rolling_dims(V, **params)
 
 
-FUNCS = {"cascadable": cascadable, "rolling_dims": rolling_dims, "tconv_pads": tconv_pads, "stripe_proposals": stripe_proposals, "rows": rows, "cols": cols, "rows_upscaled": rows_upscaled, "area": area, "cascade": cascade}
+FUNCS = {"apply_twice": apply_twice, "cascadable": cascadable, "rolling_dims": rolling_dims, "tconv_pads": tconv_pads, "stripe_proposals": stripe_proposals, "rows": rows, "cols": cols, "rows_upscaled": rows_upscaled, "area": area, "cascade": cascade}
 
 
 
@@ -662,6 +700,8 @@ def instances(tier, seed):
                                 params=dict(stride=stride, mode=mode, striped=striped, hmax=hmax, kmax=kmax, split=1)))
     out.append(dict(key="rolling_dims", fn="rolling_dims", params={}))
     out.append(dict(key="cascadable", fn="cascadable", params={}))
+    for fc in (0, 1):
+        out.append(dict(key="apply_twice/%s" % ("cascaded_first" if fc else "plain_first"), fn="apply_twice", params=dict(first_cascaded=fc)))
     for sx, sy in ((1, 1), (2, 2), (2, 1)):
         for padding in ("SAME", "VALID"):
             out.append(dict(key="tconv_pads/%dx%d/%s" % (sx, sy, padding), fn="tconv_pads", params=dict(sx=sx, sy=sy, padding=padding)))
